@@ -21,6 +21,7 @@ macro_rules! dispatch {
             "C22" => $f(&props::hist3::C22, $($arg),*),
             "C23" => $f(&props::parse::C23, $($arg),*),
             "C25" => $f(&props::pure::C25, $($arg),*),
+            "C28" => $f(&props::parse::C28, $($arg),*),
             "C26" => $f(&props::pure::C26, $($arg),*),
             other => {
                 eprintln!("unknown property {}", other);
